@@ -116,20 +116,20 @@ Proof.
 Qed.
 
 Theorem G_VerifyAssertionConditions_eq cfg now a :
-  G_VerifyAssertionConditions cfg now a = PVal (verify_conditions cfg now a).
+  G_VerifyAssertionConditions cfg now a = PVal (res_some (verify_conditions cfg now a)).
 Proof.
   unfold G_VerifyAssertionConditions, verify_conditions, run_fn, time_Parse_RFC3339. cbv zeta.
   destruct (a_conditions a) as [c|]; [|reflexivity]. cbn [is_nil].
   destruct (c_not_before c =?s ""); [reflexivity|].
   destruct (parse_rfc3339 (c_not_before c)) as [nb|]; [|reflexivity]. cbn [is_nil negb].
   assert (E1 : forall w : warning_info,
-     (if ibefore now nb then @CNext (res warning_info) unit _ (set_w_invalid_time true w, @None err) else CNext (w, None))
+     (if ibefore now nb then @CNext (res (option warning_info)) unit _ (set_w_invalid_time true w, @None err) else CNext (w, None))
      = CNext (if ibefore now nb then set_w_invalid_time true w else w, None)) by (intros; destruct (ibefore now nb); reflexivity).
   rewrite E1. cbn [bindc].
   destruct (c_not_on_or_after c =?s ""); [reflexivity|].
   destruct (parse_rfc3339 (c_not_on_or_after c)) as [noa|]; [|reflexivity]. cbn [is_nil negb].
   assert (E2 : forall w : warning_info,
-     (if negb (ibefore now noa) then @CNext (res warning_info) unit _ (set_w_invalid_time true w, @None err) else CNext (w, None))
+     (if negb (ibefore now noa) then @CNext (res (option warning_info)) unit _ (set_w_invalid_time true w, @None err) else CNext (w, None))
      = CNext (if negb (ibefore now noa) then set_w_invalid_time true w else w, None)) by (intros; destruct (ibefore now noa); reflexivity).
   rewrite E2. cbn [bindc].
   (* the audience loops *)
@@ -158,14 +158,102 @@ Proof.
   - destruct (ibefore now nb), (ibefore now noa), (not_in_audience _ _), (c_one_time_use c); reflexivity.
 Qed.
 
+(* ---------- attribute.go: Values accessors ---------- *)
+Theorem G_Values_Get_eq m now k : G_Values_Get m now k = PVal (values_get m k).
+Proof.
+  unfold G_Values_Get, values_get, values_lookup2, run_fn, zindex.
+  destruct m as [l|]; [|reflexivity]. cbn [is_nil].
+  destruct (values_lookup k l) as [a|]; [|reflexivity].
+  destruct (at_values a) as [|v vs]; reflexivity.
+Qed.
+
+Theorem G_Values_GetSize_eq m now k : G_Values_GetSize m now k = PVal (values_get_size m k).
+Proof.
+  unfold G_Values_GetSize, values_get_size, values_lookup2, run_fn.
+  destruct m as [l|]; [|reflexivity]. cbn [is_nil].
+  destruct (values_lookup k l) as [a|]; reflexivity.
+Qed.
+
+Lemma index_loop {A B R Bk} (f : A -> B) (body : Z -> list B -> ctl R (list B) (list B)) (pre suf : list A) (acc : list B) :
+  (forall i av, body i av = match zindex (pre ++ suf) i with None => CPanic | Some x => CNext (av ++ [f x]) end) ->
+  @for_range Z R Bk (list B) body (map Z.of_nat (seq (List.length pre) (List.length suf))) acc = CNext (acc ++ map f suf).
+Proof.
+  intros Hb. revert pre acc Hb. induction suf as [|x suf IH]; intros pre acc Hb; cbn [List.length seq map for_range].
+  - rewrite app_nil_r. reflexivity.
+  - rewrite Hb. unfold zindex.
+    replace (Z.of_nat (List.length pre) <? 0)%Z with false by (symmetry; apply Z.ltb_ge; apply Nat2Z.is_nonneg).
+    rewrite Nat2Z.id, nth_error_app2, Nat.sub_diag by apply Nat.le_refl. cbn [nth_error].
+    specialize (IH (pre ++ [x]) (acc ++ [f x])).
+    rewrite app_length, Nat.add_1_r in IH. cbn [List.length] in IH.
+    rewrite IH.
+    + rewrite <- app_assoc. reflexivity.
+    + intros i av. rewrite <- app_assoc. apply Hb.
+Qed.
+
+Theorem G_Values_GetAll_eq m now k : G_Values_GetAll m now k = PVal (values_get_all m k).
+Proof.
+  unfold G_Values_GetAll, values_get_all, values_lookup2, run_fn. cbv zeta.
+  destruct m as [l|]; [|reflexivity]. cbn [is_nil].
+  destruct (values_lookup k l) as [a|]; [|reflexivity]. cbn [andb].
+  destruct (at_values a) as [|v vs] eqn:Hv; [reflexivity|]. rewrite <- Hv.
+  replace (Z.of_nat (List.length (at_values a)) >? 0)%Z with true by (rewrite Hv; reflexivity).
+  unfold zrange. rewrite Nat2Z.id.
+  match goal with |- context [@for_range ?A0 ?R0 ?B0 ?S0 ?b _ _] =>
+    pose proof (@index_loop attr_value string R0 B0 av_value b [] (at_values a) []) as HI
+  end.
+  cbn [List.length app] in HI. rewrite HI; [reflexivity|].
+  intros i av. reflexivity.
+Qed.
+
+(* ---------- retrieve_assertion.go: RetrieveAssertionInfo ---------- *)
+Lemma values_loop {R B E} (body : attribute -> assertion_info * E -> ctl R (assertion_info * E) (assertion_info * E)) attrs ai (e : E) :
+  (forall a s, body a s = CNext (set_ai_values (values_set (at_name a) a (ai_values (fst s))) (fst s), snd s)) ->
+  @for_range _ R B _ body attrs (ai, e)
+  = CNext (set_ai_values (fold_left (fun m a => values_set (at_name a) a m) attrs (ai_values ai)) ai, e).
+Proof.
+  intros Hb. revert ai. induction attrs as [|a attrs IH]; intros ai; cbn [for_range fold_left].
+  - destruct ai; reflexivity.
+  - rewrite Hb. cbn [fst snd]. rewrite IH. destruct ai; reflexivity.
+Qed.
+
+(* ValidateEncodedResponse (modelled at tree level: Response.validate_response_tree) never returns (nil, nil): its result
+   enters as [res_some v] *)
+Theorem G_RetrieveAssertionInfo_eq cfg now enc (v : res response) :
+  G_RetrieveAssertionInfo cfg now enc (res_some v) = PVal (res_some (retrieve_info cfg now v)).
+Proof.
+  unfold G_RetrieveAssertionInfo, retrieve_info, retrieve_info_of, run_fn. cbv zeta.
+  destruct v as [r|e]; [|reflexivity]. cbn [res_some ptr_of_res err_of_res is_nil negb].
+  destruct (r_assertions r) as [|a rest] eqn:Hl; [reflexivity|]. rewrite <- Hl.
+  replace (Z.of_nat (List.length (r_assertions r)) =? 0)%Z with false by (rewrite Hl; reflexivity).
+  replace (zindex (r_assertions r) 0) with (Some a) by (rewrite Hl; reflexivity).
+  rewrite G_VerifyAssertionConditions_eq.
+  destruct (verify_conditions cfg now a) as [w|e]; [|reflexivity]. cbn [res_some ptr_of_res err_of_res is_nil negb bind].
+  destruct (a_subject a) as [sub|]; [|reflexivity]. cbn [is_nil].
+  destruct (sub_name_id sub) as [nid|]; [|reflexivity]. cbn [is_nil].
+  destruct (a_attribute_statement a) as [attrs|]; cbn [is_nil negb andb].
+  - match goal with |- context [@for_range ?A0 ?R0 ?B0 ?S0 ?b attrs (?ai, ?e)] =>
+      rewrite (@values_loop R0 B0 _ b attrs ai e)
+    end.
+    2:{ intros x [ai' e']. reflexivity. }
+    destruct (a_authn_statement a) as [st|]; cbn [is_nil negb bindc];
+      [destruct (as_authn_instant st), (as_session_not_on_or_after st)|]; destruct (cfg_allow_missing_attrs cfg); reflexivity.
+  - destruct (cfg_allow_missing_attrs cfg); cbn [negb]; [|reflexivity].
+    destruct (a_authn_statement a) as [st|]; cbn [is_nil negb bindc];
+      [destruct (as_authn_instant st), (as_session_not_on_or_after st)|]; reflexivity.
+Qed.
+
 (* ---------- no nil dereference ---------- *)
 Theorem validation_stage_never_panics cfg now :
   (forall r, exists v, G_Validate cfg now r = PVal v) /\
   (forall a, exists v, G_VerifyAssertionConditions cfg now a = PVal v) /\
   (forall r, exists v, G_ValidateDecodedLogoutResponse cfg now r = PVal v) /\
-  (forall r, exists v, G_ValidateDecodedLogoutRequest cfg now r = PVal v).
+  (forall r, exists v, G_ValidateDecodedLogoutRequest cfg now r = PVal v) /\
+  (forall enc r, exists v, G_RetrieveAssertionInfo cfg now enc (res_some r) = PVal v) /\
+  (forall m k, (exists v, G_Values_Get m now k = PVal v) /\ (exists v, G_Values_GetSize m now k = PVal v) /\
+               (exists v, G_Values_GetAll m now k = PVal v)).
 Proof.
-  repeat split; intros x; eexists;
-    [apply G_Validate_eq | apply G_VerifyAssertionConditions_eq
-    | apply G_ValidateDecodedLogoutResponse_eq | apply G_ValidateDecodedLogoutRequest_eq].
+  repeat split; intros; eexists;
+    first [apply G_Validate_eq | apply G_VerifyAssertionConditions_eq
+          | apply G_ValidateDecodedLogoutResponse_eq | apply G_ValidateDecodedLogoutRequest_eq
+          | apply G_RetrieveAssertionInfo_eq | apply G_Values_Get_eq | apply G_Values_GetSize_eq | apply G_Values_GetAll_eq].
 Qed.
